@@ -211,7 +211,7 @@ def run(eng, p):
         if kind == "cond_zero":
             cvar = eng.notes.get("cvar")
             # listed finding: false condition sliced away while consequence variables remain
-            regs = regs + region(eng, "C11-conditional-slice-zeroary", cvar in part and not asg[cvar] and bool(rest))
+            regs = regs + region(eng, "C11-conditional-slice-zeroary", cvar in part and not asg[cvar] and (bool(rest) or len(groups) > 1))
         sdims = [v.name for v in s.dimensions]
         eng.notes["outcome"].update({"part": part, "steps": len(groups), "sdims": sdims})
         eng.prove(sorted(sdims) == sorted(rest) and (kind != "matrix" or sdims == rest),
